@@ -13,5 +13,5 @@ def jobs(tier):
 
 def extra(tier, seed):
     from fvverif.lean import lemma_status
-    ok, detail = lemma_status(['flux_form_sum', 'telescope'], rebuild=(tier == 'thorough'))
+    ok, detail = lemma_status(['flux_form_sum', 'telescope', 'invariant_iterate'], rebuild=(tier == 'thorough'))
     return [('lean lemmas flux_form_sum/telescope (per-cell flux form => domain sum changes only through boundary faces)', ok, 'lean:' + detail)]
